@@ -58,6 +58,10 @@ CATALOGUE = [
     ('e', '.byte', ['"the: e: end"'], False),
     ('pth', '.cstr', ['"C:\\\\"'], False),           # the string ends in an escaped backslash: C:\\ 
     (None, '.byte', ['"q\\\\"'], False),
+    # a literal delimited by one kind of quote that contains the other kind
+    ('ap', '.cstr', ['"it\'s"'], False),
+    (None, 'ldi', [('reg', 'a'), "'\"'"], True),
+    (None, '.byte', ['"say \'hi\'"'], False),
     # directives and preprocessor lines take comments, blank lines and whitespace like any other line
     (None, '#include', ['"inc18.asm"'], False),
     (None, '.org', ['$40'], False),
@@ -77,7 +81,7 @@ VARIANTS = {
     'bracket-padding': [' '],
     'indent': ['    ', '\t'],
     'blank-line': [1],
-    'comment': ['; note', ';nop "q', '   ; x = 1, y'],
+    'comment': ['; note', ';nop "q', '   ; x = 1, y', '; the user sees "it\'s" here'],
     'label-own-line': [1],
     'join': [' ', '\t', ' \t', '   '],         # the whitespace between two instructions written on one line
 }
@@ -232,7 +236,7 @@ def meta(tier):
     q = tier == 'quick'
     return {
         'rule': 'base programs (plus programs about local regions, preprocessor lines, and statements that differ only in the letter case of a label or character literal): header + every single statement and every ordered pair (thorough: triples of the first 10) of a '
-                '26-statement catalogue (every instruction form of the probe ISA, data lines, labelled statements, an #include, .org, .align and #define line, operands that look '
+                '29-statement catalogue (every instruction form of the probe ISA, data lines, labelled statements, an #include, .org, .align and #define line, operands that look '
                 'like mnemonics or registers: label nop_x, constant A1) + footer; rewrites: for each kind (mnemonic case, register case, '
                 'token separator, comma spacing, bracket padding, indentation, blank lines, comments incl. ones containing a mnemonic '
                 'and a quote, label on its own line, instructions joined on one line) and each variant of the kind, every subset of the '
